@@ -35,7 +35,9 @@ CardOptions ==
      LinkedA("bestPet", "lp", <<>>, <<Loadable(ScalarA("Inner", "L", <<>>))>>),               \* 5
      LinkedA("bestPet", "bp6", <<>>, <<Linked("mate", <<Scalar("nickname"), Scalar("Inner")>>)>>),    \* 6
      LinkedA("bestPet", "bp7", <<>>, <<LinkedA("mate", "m2", <<>>, <<Scalar("kind")>>)>>),        \* 7
-     LinkedA("pets", "r", << <<"first", IntV("2")>> >>, <<Scalar("feed")>>) >>                  \* 8
+     LinkedA("pets", "r", << <<"first", IntV("2")>> >>, <<Scalar("feed")>>),                   \* 8
+     Linked("favPet", <<Scalar("nickname"), Scalar("Inner")>>),                               \* 9  pointer User -> Pet
+     LinkedA("favPet", "fp2", <<>>, <<Scalar("kind")>>) >>                                     \* 10 same pointer, other alias
 
 UsesPointer(cs) == \E i \in DOMAIN cs : cs[i].alias \in {"bp6", "bp7"}
 RECURSIVE UsesVarIn(_, _)
@@ -67,10 +69,8 @@ OtherSels(cs) ==
   << Linked("me", <<Linked("friends", <<CardUse("", cs, IntV("5"), IntV("4"))>>)>>),
      Linked("topPet", <<Linked("owner", <<CardUse("", cs, IntV("1"), IntV("1")), Linked("bestPet", <<Scalar("Inner")>>)>>)>>) >>
 
-\* The pointer reused inside Card goes from Pet to Pet: the pinned compiler panics ("Expected selectable to exist")
-\* when a client field that selects a client pointer whose parent and target types differ is itself selected by
-\* another client field (reader_ast.rs refetched_paths_with_path looks the pointer's own selections up on the
-\* TARGET type) — that is C08's finding; a pointer with different types is used directly in Home (option 7).
+\* Pet.mate goes from Pet to Pet, User.favPet from User to Pet (the pinned compiler used to panic on a pointer with
+\* different parent and target types selected inside a nested client field; repaired in /repo by 7b2e4b0).
 PointerVariants ==
   << Pointer("Pet", "mate", "Pet", <<Linked("owner", <<Linked("bestPet", <<Scalar("id")>>)>>)>>),
      Pointer("Pet", "mate", "Pet", <<Linked("owner", <<Linked("bestPet", <<Scalar("id"), Scalar("__refetch")>>)>>)>>) >>
@@ -85,7 +85,7 @@ SeqOfSet(S) == IF S = {} THEN <<>> ELSE LET m == CHOOSE x \in S : \A y \in S : x
 Programs ==
   { Program(<< Component("Pet", "Inner", <<>>, InnerVariants[iv]) >>
             \o (IF UsesPointer(Pick(CardOptions, ct)) THEN <<PointerVariants[pv]>> ELSE <<>>)
-            \o (IF 7 \in Range(ht) THEN <<FavPet>> ELSE <<>>)
+            \o (IF 7 \in Range(ht) \/ (\E i \in DOMAIN ct : ct[i] \in {9, 10}) THEN <<FavPet>> ELSE <<>>)
             \o << Component("User", "Card", CardVars(Pick(CardOptions, ct)), Pick(CardOptions, ct)),
                   Component("Query", "Home", HomeVars(Pick(HomeOptions(Pick(CardOptions, ct)), ht)),
                             Pick(HomeOptions(Pick(CardOptions, ct)), ht)),
